@@ -14,11 +14,11 @@ META = {
 
 def bounded(rep, tier):
     from vrf.bounded import traceback_grid as G
-    paths = ("string", "file", "lookup", "moddir")
+    paths = ("string", "file", "lookup", "moddir", "moddir-rel")
     t0 = time.time()
     jobs = [(k[0], p) for k in G.CONSTRUCTS for p in paths]
     outs = [o for o in pool_map(G.run_fault, jobs) if o]
-    bound = "%d construct kinds (expression, multi-line expression, code block line, control lines, def/block bodies, call argument, filter, after multi-line text and continuation lines) x 4 construction paths; RichTraceback records, text/html error templates, format_exceptions" % len(G.CONSTRUCTS)
+    bound = "%d construct kinds (expression, multi-line expression, code block line, control lines, def/block bodies, call argument, filter, after multi-line text and continuation lines) x 5 construction paths (string, file, lookup, module directory given absolute / relative to the working directory); RichTraceback records, text/html error templates, format_exceptions" % len(G.CONSTRUCTS)
     if outs:
         for o in outs:
             o.pop("template", None)
@@ -35,10 +35,20 @@ def bounded(rep, tier):
     else:
         rep.add(Result("C12.chain", BOUNDED_OK, klass="B", backend="native-oracle", function="mako.exceptions:RichTraceback", bound="inherit + namespace + include chain x 3 paths", evaluations=3,
                        time_s=time.time() - t1, detail="each of the four templates active in one traceback is reported with its own line"))
+    t3 = time.time()
+    rjobs = [(k, p) for k in G.REENTRANT for p in ("string", "file", "moddir")]
+    routs = [o for o in pool_map(G.run_reentrant, rjobs) if o]
+    rb = "%d re-entrant frame sequences (template A, template B, template A again) x 3 paths" % len(G.REENTRANT)
+    if routs:
+        rep.add(Result("C12.reentrant", VIOLATED, klass="B", backend="native-oracle", function="mako.exceptions:RichTraceback._init", bound=rb, evaluations=len(rjobs),
+                       detail=routs[0]["problem"][:300], witness=routs[0], replayed=True, replay={"failures": routs[:3]}, time_s=time.time() - t3))
+    else:
+        rep.add(Result("C12.reentrant", BOUNDED_OK, klass="B", backend="native-oracle", function="mako.exceptions:RichTraceback._init", bound=rb, evaluations=len(rjobs),
+                       time_s=time.time() - t3, detail="every record carries its own template's source and line text; source/lineno are the innermost template frame's"))
     t2 = time.time()
     wjobs = [(k[0], p, a) for k in G.WARN_TEMPLATES for p in paths for a in ("always", "once", "error")]
     wouts = [o for o in pool_map(G.run_warning, wjobs) if o]
-    wb = "4 warning sources (module-level warn(), invalid escape in expression / code block / control line) x 4 paths x filter actions {always, once, error}"
+    wb = "4 warning sources (module-level warn(), invalid escape in expression / code block / control line) x 5 paths x filter actions {always, once, error}"
     if wouts:
         rep.add(Result("C12.warning-grid", VIOLATED, klass="B", backend="native-oracle", function="mako.template:_show_warnings_as", bound=wb, evaluations=len(wjobs),
                        detail=wouts[0]["problem"][:300], witness=wouts[0], replayed=True, replay={"failures": wouts[:3]}, time_s=time.time() - t2))
